@@ -252,3 +252,11 @@ SUBS = [
     Sub("forward-all-shapes", check_forward, enum=enum_shapes, nontrivial=nontrivial, enum_shards=lambda t: 3 if t == "quick" else 8),
     Sub("inverse-all-shapes", check_inverse, enum=enum_shapes, nontrivial=nontrivial, enum_shards=lambda t: 3 if t == "quick" else 8),
 ]
+
+
+# objects with a history (reads that may fill caches, in-place writes): observables equal those of a fresh object
+from pbt import aged as _aged  # noqa: E402
+
+SUBS.append(_aged.sub("C11", quick=120))
+ASSUMPTIONS = list(ASSUMPTIONS) + ["aged sub-property: library results are a function of the public primary state "
+                                   "(corners, n, names, units, bc, subregions, array, validity, labels, mapping, unit)"]
